@@ -38,7 +38,8 @@ def handleExpect (j : Json) : Json :=
   let go := getStr j "go"
   let corr := go == mine
   let lines := evs.filterMap (fun e => match e with | .line x => some x | _ => none)
-  let sound := if go == "pass" then segmentable steps lines else true
+  -- (a tool that dies on the session has given no verdict at all: "crash" is neither pass nor fail)
+  let sound := if go == "pass" then segmentable steps lines else go != "crash"
   -- the dangerous direction, step by step: the tool passed a session which, with every step ending
   -- at the line that completes it (the tool's documented reading of the stream), has a step whose
   -- expected output never came or whose forbidden output did
